@@ -157,7 +157,20 @@ class Paths:
             return r
         self._memo[key] = None
         try:
-            r = self._summarise(fn, depth)
+            try:
+                r = self._summarise(fn, depth)
+            except HasLoop:
+                # a loop over an array literal (a table of cases) is unrolled; any other loop stays refused
+                if self.loops != "refuse":
+                    raise
+                saved = self.loops
+                self.loops = "unroll"
+                try:
+                    r = self._summarise(fn, depth)
+                except Unsupported:
+                    raise HasLoop("%s has a loop" % fn.path)
+                finally:
+                    self.loops = saved
         except Unsupported as e:
             self._memo[key] = e
             raise
@@ -948,8 +961,11 @@ def _paths_unroll(cfg, limit, max_visits=6):
     body = cfg.body
     out = []
 
+    steps = [0]
+
     def rec(b, path, count):
-        if len(out) > limit:
+        steps[0] += 1
+        if len(out) > limit or steps[0] > 300000:
             raise Unsupported("too many paths")
         path.append(b)
         count[b] = count.get(b, 0) + 1
